@@ -19,7 +19,7 @@
   The counts are specified by the executable `Spec` functions (what the driver compares against),
   whose meaning is pinned down by the `spec_*` theorems at the end.
 -/
-import Bnum.Lemmas.Bits
+import Bnum.Lemmas.C06Extra
 namespace Bnum.C06
 open Bnum Bnum.Bits
 
@@ -86,6 +86,28 @@ theorem ones_spec {w n : Nat} {x : List Nat} (hx : WF w n x) :
   ⟨leadingOnes_eq_not hx, trailingOnes_eq_not hx, leadingOnes_spec hx, trailingOnes_spec hx⟩
 example : WF 8 3 [0xff, 0x3c, 0xff] := by decide
 
+/-- The four run counts read directly on the bits of the pattern (no `Spec` function in between):
+    each is `≤ BITS`; exactly that many bits from the top / bottom are clear (resp. set), and unless
+    the count is `BITS` the next bit is set (resp. clear). -/
+theorem run_counts_bits {w n : Nat} {x : List Nat} (hx : WF w n x) :
+    (UI.leadingZeros w x ≤ w * n ∧
+      (∀ i, i < UI.leadingZeros w x → (U w x).testBit (w * n - 1 - i) = false) ∧
+      (UI.leadingZeros w x < w * n → (U w x).testBit (w * n - 1 - UI.leadingZeros w x) = true)) ∧
+    (UI.trailingZeros w x ≤ w * n ∧
+      (∀ i, i < UI.trailingZeros w x → (U w x).testBit i = false) ∧
+      (UI.trailingZeros w x < w * n → (U w x).testBit (UI.trailingZeros w x) = true)) ∧
+    (UI.leadingOnes w x ≤ w * n ∧
+      (∀ i, i < UI.leadingOnes w x → (U w x).testBit (w * n - 1 - i) = true) ∧
+      (UI.leadingOnes w x < w * n → (U w x).testBit (w * n - 1 - UI.leadingOnes w x) = false)) ∧
+    (UI.trailingOnes w x ≤ w * n ∧
+      (∀ i, i < UI.trailingOnes w x → (U w x).testBit i = true) ∧
+      (UI.trailingOnes w x < w * n → (U w x).testBit (UI.trailingOnes w x) = false)) := by
+  have hv : U w x < 2 ^ (w * n) := U_lt hx
+  have e1 : UI.leadingZeros w x = Spec.leadingZeros (w * n) (U w x) := leadingZeros_spec hx
+  rw [e1, trailingZeros_spec hx, leadingOnes_spec hx, trailingOnes_spec hx]
+  exact ⟨leadingZeros_char hv, trailingZeros_char _ _, leadingOnes_char hv, trailingOnes_char hv⟩
+example : WF 8 3 [0xff, 0x3c, 0x0f] := by decide
+
 /-- "with the all-zero and all-one patterns giving BITS or 0" -/
 theorem extreme_patterns (w n : Nat) (hW : 1 ≤ w * n) :
     (UI.countOnes w (zero n) = 0 ∧ UI.countZeros w (zero n) = w * n ∧
@@ -102,6 +124,13 @@ theorem is_zero_one_iff {w n : Nat} (hw : 1 ≤ w) {x : List Nat} (hx : WF w n x
     (isZero x = true ↔ U w x = 0) ∧ (isOne x = true ↔ U w x = 1) :=
   ⟨Cmp.isZero_iff_U x, isOne_iff hw hx⟩
 example : 1 ≤ 8 ∧ WF 8 2 [0x01, 0x00] := by decide
+
+/-- `BInt::is_zero` / `BInt::is_one` (forwarders to the pattern scans) ⇔ the signed value is `0` / `1`
+    (`2 ≤ w`: at one bit the pattern `1` denotes −1). -/
+theorem i_is_zero_one_iff {w n : Nat} (hw : 2 ≤ w) (hn : 1 ≤ n) {x : List Nat} (hx : WF w n x) :
+    (II.isZeroBits x = true ↔ S w x = 0) ∧ (II.isOneBits x = true ↔ S w x = 1) :=
+  ⟨i_isZero_iff hx, i_isOne_iff hw hn hx⟩
+example : 2 ≤ 8 ∧ 1 ≤ 2 ∧ WF 8 2 [0x01, 0x00] := by decide
 
 /-! ### bit / set_bit / power_of_two -/
 
@@ -183,6 +212,22 @@ theorem next_power_of_two_spec {s n : Nat} (hs : s < 32) (dbg : Bool) {x : List 
   nextPowerOfTwo_spec hs dbg hx
 example : 3 < 32 ∧ WF (2 ^ 3) 2 [0x01, 0x80] := by decide
 
+/-- …and both agree with the executable `Spec.wrappingNextPow2` / `Spec.checkedNextPow2` the driver
+    compares against (`0`, resp. panic in debug / `0` in release, when nothing fits). -/
+theorem wrapping_next_power_of_two_eq_spec {s n : Nat} (hs : s < 32) {x : List Nat}
+    (hx : WF (2 ^ s) n x) :
+    (UI.wrappingNextPowerOfTwo (2 ^ s) x).map (U (2 ^ s)) =
+      .ok (Spec.wrappingNextPow2 (2 ^ s * n) (U (2 ^ s) x)) := wrappingNextPowerOfTwo_eq_spec hs hx
+example : 3 < 32 ∧ WF (2 ^ 3) 2 [0x01, 0x80] := by decide
+
+theorem next_power_of_two_eq_spec {s n : Nat} (hs : s < 32) (dbg : Bool) {x : List Nat}
+    (hx : WF (2 ^ s) n x) :
+    (UI.nextPowerOfTwo dbg (2 ^ s) x).map (U (2 ^ s)) =
+      match Spec.checkedNextPow2 (2 ^ s * n) (U (2 ^ s) x) with
+      | some p => .ok p
+      | none => if dbg then .panic else .ok 0 := nextPowerOfTwo_eq_spec hs dbg hx
+example : 3 < 32 ∧ WF (2 ^ 3) 2 [0x01, 0x80] := by decide
+
 /-! ### reverse_bits / swap_bytes -/
 
 /-- `reverse_bits`: bit `i` of the result is bit `BITS-1-i` of the argument; involution. -/
@@ -224,6 +269,10 @@ theorem signed_forwarders (w : Nat) (x y : List Nat) (i : Nat) :
     II.reverseBits w x = UI.reverseBits w x :=
   ⟨rfl, rfl, rfl, rfl, rfl, rfl, rfl, rfl, rfl, rfl, rfl, rfl, rfl, rfl⟩
 
+/-- `BInt::is_zero` / `is_one` are `self.bits.is_zero()` / `self.bits.is_one()` -/
+theorem signed_forwarders_zero_one (x : List Nat) :
+    II.isZeroBits x = isZero x ∧ II.isOneBits x = isOne x := ⟨rfl, rfl⟩
+
 /-! ### meaning of the executable specification functions used above -/
 
 /-- `Spec.bitLen v ≤ k ↔ v < 2^k` (so `bitLen 0 = 0` and `2^(bitLen v - 1) ≤ v < 2^bitLen v`). -/
@@ -243,6 +292,36 @@ theorem spec_popcount (W v : Nat) (hv : v < 2 ^ W) :
     (Spec.popcount W v = 0 ↔ v = 0) ∧ (Spec.popcount W v = 1 ↔ ∃ k, v = 2 ^ k) :=
   ⟨rfl, popcount_compl W v hv, popcount_eq_zero W v hv, popcount_eq_one W v hv⟩
 example : (5 : Nat) < 2 ^ 3 := by decide
+
+/-- `Spec.compl W` flips exactly the low `W` bits; `Spec.countZeros` is the complement of the
+    popcount -/
+theorem spec_compl (W v : Nat) (hv : v < 2 ^ W) (i : Nat) :
+    (Spec.compl W v).testBit i = (decide (i < W) && !v.testBit i) := spec_compl_testBit hv i
+example : (5 : Nat) < 2 ^ 3 := by decide
+theorem spec_countZeros (W v : Nat) : Spec.countZeros W v + Spec.popcount W v = W :=
+  spec_countZeros_add W v
+
+/-- `Spec.leadingZeros` / `Spec.leadingOnes` / `Spec.trailingOnes` of a `W`-bit pattern: the count is
+    `≤ W`, that many bits from the top (bottom) are clear (set), and below the cap the next bit is
+    set (clear). -/
+theorem spec_leadingZeros (W v : Nat) (hv : v < 2 ^ W) :
+    Spec.leadingZeros W v ≤ W ∧
+    (∀ i, i < Spec.leadingZeros W v → v.testBit (W - 1 - i) = false) ∧
+    (Spec.leadingZeros W v < W → v.testBit (W - 1 - Spec.leadingZeros W v) = true) :=
+  leadingZeros_char hv
+example : (5 : Nat) < 2 ^ 4 := by decide
+theorem spec_leadingOnes (W v : Nat) (hv : v < 2 ^ W) :
+    Spec.leadingOnes W v ≤ W ∧
+    (∀ i, i < Spec.leadingOnes W v → v.testBit (W - 1 - i) = true) ∧
+    (Spec.leadingOnes W v < W → v.testBit (W - 1 - Spec.leadingOnes W v) = false) :=
+  leadingOnes_char hv
+example : (13 : Nat) < 2 ^ 4 := by decide
+theorem spec_trailingOnes (W v : Nat) (hv : v < 2 ^ W) :
+    Spec.trailingOnes W v ≤ W ∧
+    (∀ i, i < Spec.trailingOnes W v → v.testBit i = true) ∧
+    (Spec.trailingOnes W v < W → v.testBit (Spec.trailingOnes W v) = false) :=
+  trailingOnes_char hv
+example : (11 : Nat) < 2 ^ 4 := by decide
 
 theorem spec_isPow2 (v : Nat) : Spec.isPow2 v = true ↔ ∃ k, v = 2 ^ k := spec_isPow2_iff v
 theorem spec_nextPow2_least (v : Nat) : IsNextPow2 v (Spec.nextPow2 v) := spec_nextPow2 v
